@@ -620,14 +620,14 @@ impl Process for JsonProcess {
     closed spec fn header(&self, titles: Seq<String>) -> Seq<char> { Seq::empty() }
 
 //@@ fn jsonprocess.start = src/output_style.rs :: impl Process for JsonProcess :: fn start
-//@@ safety C02 C03 C16 C18
+//@@ safety C02 C03 C16 C18 C20
 //@@ rewrite underscore_param
 //@@ endfn
 //@@ fn jsonprocess.complete = src/output_style.rs :: impl Process for JsonProcess :: fn complete
-//@@ safety C02 C03 C16
+//@@ safety C02 C03 C16 C20
 //@@ endfn
 //@@ fn jsonprocess.process = src/output_style.rs :: impl Process for JsonProcess :: fn process
-//@@ safety C02 C03 C16
+//@@ safety C02 C03 C16 C20
 //@@ rewrite write_macros
 //@@ before "Ok(ProcessDesision::Continue)"
         proof {
@@ -775,7 +775,7 @@ pub open spec fn list_row(p: TextPrinter, n: int, sep: Seq<char>, list: Seq<Opti
 
 impl TextProcess {
 //@@ fn textprocess.print_list = src/output_style.rs :: impl TextProcess :: fn print_list
-//@@ safety C15 C16 C05
+//@@ safety C15 C16 C05 C20
 //@@ ret r
 //@@ rewrite write_macros enumerate
 //@@ header
@@ -784,7 +784,7 @@ impl TextProcess {
             final(self).length == old(self).length && final(self).line_seperator == old(self).line_seperator && final(self).printer == old(self).printer,
             // exactly one field per element of the list, in order, separated, then the row separator (C15: N fields per row)
             r is Ok ==> final(self).writer.log() == old(self).writer.log().add(list_row(old(self).printer, old(self).length as int, old(self).line_seperator@, list@)), // @obl PRINT.text.row : C15
-            is_pre(old(self).writer.log(), final(self).writer.log()), // @obl PRINT.text.row_prefix : C16
+            is_pre(old(self).writer.log(), final(self).writer.log()), // @obl PRINT.text.row_prefix : C16 C20
             r is Ok ==> r->Ok_0 is Continue,
 //@@ body-start
         let ghost l0 = self.writer.log();
@@ -820,10 +820,10 @@ impl Process for TextProcess {
     }
 
 //@@ fn textprocess.complete = src/output_style.rs :: impl Process for TextProcess :: fn complete
-//@@ safety C15 C03 C16
+//@@ safety C15 C03 C16 C20
 //@@ endfn
 //@@ fn textprocess.start = src/output_style.rs :: impl Process for TextProcess :: fn start
-//@@ safety C15 C18 C03 C16
+//@@ safety C15 C18 C03 C16 C20
 //@@ ret r
 //@@ header
         ensures
@@ -835,7 +835,7 @@ impl Process for TextProcess {
             r is Ok ==> final(self).length == titles_so_far.names().len(),
 //@@ endfn
 //@@ fn textprocess.process = src/output_style.rs :: impl Process for TextProcess :: fn process
-//@@ safety C15 C16 C03
+//@@ safety C15 C16 C03 C20
 //@@ rewrite write_macros
 //@@ body-start
         let ghost l0 = self.writer.log();
